@@ -45,12 +45,12 @@ DEPTH_DOC = {
 }
 
 MUTS = {
-    "tree": ["edge_length", "node_label", "tree_label", "annot_add", "annot_drop", "annot_change", "node_annot_add", "comment",
+    "tree": ["annot_value_edit", "node_annot_value_edit", "edge_length", "node_label", "tree_label", "annot_add", "annot_drop", "annot_change", "node_annot_add", "comment",
              "encode", "attr", "reroot", "prune", "collapse", "add_child", "rotate", "relabel_taxon", "ns_add", "edge_annot_add", "is_rooted"],
-    "treelist": ["edge_length", "node_label", "list_label", "append", "remove", "annot_add", "reroot", "prune", "relabel_taxon", "ns_add",
+    "treelist": ["annot_value_edit", "edge_length", "node_label", "list_label", "append", "remove", "annot_add", "reroot", "prune", "relabel_taxon", "ns_add",
                  "tree_annot_add", "comment"],
-    "matrix": ["set_cell", "append_cell", "del_sequence", "new_sequence", "mat_label", "annot_add", "relabel_taxon", "ns_add", "seq_annot"],
-    "namespace": ["add_taxon", "remove_taxon", "relabel_taxon", "sort", "ns_label", "annot_add", "taxon_annot"],
+    "matrix": ["annot_value_edit", "set_cell", "append_cell", "del_sequence", "new_sequence", "mat_label", "annot_add", "relabel_taxon", "ns_add", "seq_annot"],
+    "namespace": ["annot_value_edit", "add_taxon", "remove_taxon", "relabel_taxon", "sort", "ns_label", "annot_add", "taxon_annot"],
 }
 SHARED_TOUCHING = set(["relabel_taxon", "ns_add", "taxon_annot", "add_taxon", "remove_taxon", "sort", "ns_label"])
 
@@ -111,9 +111,12 @@ class C12(Machine):
             t = gen.build_tree(dendropy, spec, ns, is_rooted=cfg["rooted"], label="tree%d" % i)
             if cfg["annotated"]:
                 t.annotations.add_new("source", "sim")
+                t.annotations.add_new("hpd", [0.25, 0.75])          # mutable annotation value
                 nodes = rawtree.raw_nodes(t)
                 nodes[-1].annotations.add_new("support", 0.5)
+                nodes[-1].annotations.add_new("range", [1, 2, 3])
                 nodes[0].edge.annotations.add_new("rate", 1.5)
+                nodes[-1].edge.annotations.add_new("rates", {"a": [1.0]})
                 t.comments.append("a comment")
                 nodes[-1].comments.append("node comment")
             if cfg["bound"]:
@@ -134,6 +137,7 @@ class C12(Machine):
                 tl.append(mk_tree(sp, i))
             if cfg["annotated"]:
                 tl.annotations.add_new("collection", "x")
+                tl.annotations.add_new("tags", ["p", "q"])
             return tl, ns
         if kind == "matrix":
             cls = dendropy.DnaCharacterMatrix if cfg["dt"] == "dna" else dendropy.StandardCharacterMatrix
@@ -141,11 +145,13 @@ class C12(Machine):
             m.label = "mat"
             if cfg["annotated"]:
                 m.annotations.add_new("gene", "cox1")
+                m.annotations.add_new("partitions", [[0, 1], [2]])
             if cfg["bound"]:
                 m.annotations.add_bound_attribute("label")
             return m, ns
         if cfg["annotated"]:
             ns.annotations.add_new("origin", "sim")
+            ns.annotations.add_new("codes", ["x"])
             ns[0].annotations.add_new("rank", "species")
         return ns, ns
 
@@ -334,6 +340,18 @@ class C12(Machine):
     # ------------------------------------------------------------------
     def _mutate(self, obj, kind, st, ns):
         m, k, k2 = st["m"], st["k"], st["k2"]
+        if m in ("annot_value_edit", "node_annot_value_edit"):
+            holder = obj
+            if m == "node_annot_value_edit":
+                holder = rawtree.raw_nodes(obj)[-1]
+            if getattr(holder, "_annotations", None) is None:
+                return False
+            for a in holder.annotations:
+                v = a.value
+                if isinstance(v, list) and not a.is_attribute:
+                    v.append(st["k"] % 5)
+                    return True
+            return False
         if kind == "treelist" and m in ("edge_length", "node_label", "reroot", "prune", "tree_annot_add"):
             if len(obj) == 0:
                 return False
